@@ -271,7 +271,9 @@ where
         let mut last_output_pos: Option<NonZeroU32> = None;
 
         let mut skips = 0;
-        for c in unsafe { self.haystack.as_ref().get_unchecked(self.pos..) }.chars() {
+        // `self.pos` is a char boundary of the string returned by an earlier `as_ref()` call; nothing
+        // obliges `AsRef` to return the same string again, so the range is checked.
+        for c in self.haystack.as_ref().get(self.pos..)?.chars() {
             skips += c.len_utf8();
 
             // state_id is always smaller than self.pma.states.len() because
